@@ -144,8 +144,9 @@ Definition handle_msg (dec : msg -> option Z) (s : st) (m : msg) (now : Z) : st 
   end.
 
 (* Handler.NewObservation up to the point where it waits for the first response.
-   Note the deferred cleanUp on the ErrKeyAlreadyExists path: it deletes the key,
-   i.e. the entry of the observation that already uses this token. *)
+   A token that is already in use is refused (ErrKeyAlreadyExists) and the entry of the
+   observation that uses it is left alone: the deferred cleanUp is installed only after a
+   successful LoadOrStore (before the repair it was installed earlier and deleted that entry). *)
 Definition reg (s : st) (tok : list Z) : st * list out :=
   let id := length (regs s) in
   let rs := regs s ++ [tok] in
@@ -154,7 +155,7 @@ Definition reg (s : st) (tok : list Z) : st * list out :=
   | _ =>
       let k := crc64 tok in
       match tget k (tbl s) with
-      | Some _ => (mkSt (tdel k (tbl s)) rs, [RegRet id 3])
+      | Some _ => (mkSt (tbl s) rs, [RegRet id 3])
       | None => (mkSt (tset k (mkObs id tok 0 zeroTimeUnixNano true) (tbl s)) rs, [])
       end
   end.
